@@ -125,6 +125,9 @@ def productions(d, start, rng=None):
         P.append((f'(2 {o} ({{x}}))', 1, {'numbers', 'reflected-number'}, 1))
         P.append((f'(({{x}}) {o} 2)', 1, {'numbers', 'number-right'}, 1))
     P.append(('({x}).dual(kind="hodge")', 1, {'dual'}, 2))
+    # a multivector that is not an argument but a constant of the program (a module-level name): "any other use"
+    for tmpl in ('(({x}) * K_S)', '(({x}) + K_S)', '(K_S * ({x}))', '(({x}) * K_V)', '(({x}) - K_V)'):
+        P.append((tmpl, 1, {'mv-constant'}, 2))
     P.append(('(({x}) * ({y})).e', 2, {'coeff-result'}, 2))
     return P
 
@@ -258,7 +261,8 @@ def run_shard(shard, ctx):
                      for _ in range(unit['count'])]
         # harness-side registered callees: plain versions for the oracle, registered versions for registration
         import numpy as _np
-        consts = {'N_C': 2j, 'N_F': Fr(1, 2), 'N_I64': _np.int64(2), 'N_F32': _np.float32(0.5)}
+        consts = {'N_C': 2j, 'N_F': Fr(1, 2), 'N_I64': _np.int64(2), 'N_F32': _np.float32(0.5),
+                  'K_S': alg.scalar([0.123456789]), 'K_V': alg.multivector(keys=(tuple(alg.canon2bin.values())[-1],), values=[1.23456789])}
         plain_ns = dict(consts)
         exec(G1_SRC + G2_SRC + H_SRC, plain_ns)
         reg_ns = dict(consts, g1=alg.register(plain_ns['g1']), g2=alg.register(plain_ns['g2']),
